@@ -265,6 +265,10 @@ fn main() {
             let ctx = props::Ctx::new(seed, Tier::Quick);
             let out = std::io::stdout();
             let mut out = out.lock();
+            if let Some(k) = arg_after(&args, "--cells-base").and_then(|s| s.parse::<u64>().ok()) {
+                threads::profile_cells(&ctx, k, &mut out);
+                return;
+            }
             for i in from..to {
                 let line = threads::profile_digest_line(&ctx, i);
                 writeln!(out, "{} {}", i, line).unwrap();
